@@ -196,6 +196,8 @@ class ApplyMixin:
         if name == "endswith":
             return SV(z3.SuffixOf(self.unbox(args[0], "str").t, s), "bool")
         if name in ("strip", "lower", "upper", "split", "rsplit", "replace", "format", "lstrip", "rstrip"):
+            if name in ("split", "rsplit") and len(args) == 2 and f"str.{name}:maxsplit" in self.side.assumed:
+                return self.call_named(f"str.{name}:maxsplit", [recv] + args, kw, st, fr, node)
             return self.call_named(f"str.{name}", [recv] + args, kw, st, fr, node)
         raise Untranslatable(f"str.{name}")
 
